@@ -10,8 +10,8 @@
    The complement ("known bad") is explicit: [safe] (operator instances, Model/C01Safe.v) and [pos_ok] / [clean]
    (a None value tested for truth below a `not`); every disjunct has a refutation in Findings/C01.v / Findings/C02.v. *)
 Require Import PonyV.Base.PyBase PonyV.Model.C01Expr PonyV.Model.C01Sql PonyV.Model.C01Translate PonyV.Model.C01Safe
-               PonyV.Model.C01Eqb PonyV.Model.C01Query PonyV.Model.C01Like PonyV.Model.C01LikeEqb PonyV.Model.C01Join PonyV.Model.C01Coll PonyV.Model.C01Aggr PonyV.Model.C01Len PonyV.Model.C01Form
-               PonyV.Proofs.C01Ref PonyV.Proofs.C01Sound PonyV.Proofs.C01Rows PonyV.Proofs.C01Like PonyV.Proofs.C01Join PonyV.Proofs.C01Coll PonyV.Proofs.C01Aggr PonyV.Proofs.C01Len PonyV.Proofs.C01Form.
+               PonyV.Model.C01Eqb PonyV.Model.C01Query PonyV.Model.C01Like PonyV.Model.C01LikeEqb PonyV.Model.C01Join PonyV.Model.C01Coll PonyV.Model.C01Aggr PonyV.Model.C01Len PonyV.Model.C01Form PonyV.Model.C01Group PonyV.Model.C01Order
+               PonyV.Proofs.C01Ref PonyV.Proofs.C01Sound PonyV.Proofs.C01Rows PonyV.Proofs.C01Like PonyV.Proofs.C01Join PonyV.Proofs.C01Coll PonyV.Proofs.C01Aggr PonyV.Proofs.C01Len PonyV.Proofs.C01Form PonyV.Proofs.C01Group PonyV.Proofs.C01Order.
 
 (* WHERE keeps exactly the rows the Python condition keeps *)
 Theorem C01_filter_except_known : forall d, modelled d = true ->
@@ -300,6 +300,65 @@ Example C01_aggregate_nonvacuous :
   | Some c, Some qa => sql_aggr DSqlite qa c table = IntV 0
   | _, _ => False
   end.
+Proof. vm_compute. repeat split; reflexivity. Qed.
+
+(* GROUP BY with selected aggregates / several aggregates per query (Model/C01Group.v): select((item, ..., item) for p in P [if c]),
+   every item a scalar expression (grouping key) or an aggregate of Model/C01Aggr.v.  [sql_group_rows]: the kept rows partitioned by
+   the values of the key columns (NULL keys form one group; no key: one group even over no rows), one result row per group;
+   [py_group_rows]: the comprehension's rows partitioned by the values of the key expressions, aggregates per group.  Both list
+   the groups in order of first appearance (SQL leaves the order open; the tie compares as multisets).  Domain as for
+   C01_aggregate, row by row and item by item. *)
+Theorem C01_group_rows_except_known : forall d, modelled d = true ->
+  forall table filt items qitems conds,
+  filt_typed filt = true -> tr_where d filt = Some conds -> tr_items d items = Some qitems ->
+  forallb (item_safe d) items = true ->
+  keys_ok (map (fun en => attr_val en 0%nat) table) = true ->
+  Forall (grow_ok d filt items) table ->
+  sql_group_rows d qitems conds table = map (map (enca d)) (py_group_rows items filt table).
+Proof. exact group_sound. Qed.
+Print Assumptions C01_group_rows_except_known.
+
+(* non-vacuity: (p.a, count(p), sum(p.b)) grouped by a with a None key, and (count(p), max(p.b)) without keys over no rows *)
+Example C01_group_nonvacuous :
+  let a := mkattr 1 TInt true in let b := mkattr 2 TInt true in
+  let row (id : Z) (av bv : pyv) := mkenv (fun i => match i with 0%nat => PInt id | 1%nat => av | 2%nat => bv | _ => PNone end) (fun _ => PNone) in
+  let table := [row 1 (PInt 2) (PInt 5); row 2 PNone (PInt 1); row 3 (PInt 2) PNone; row 4 PNone (PInt 3)] in
+  let items := [SKey (EAttr a); SAgg GCountObj; SAgg (GAgg FSum false (EAttr b))] in
+  let items2 := [SAgg GCountObj; SAgg (GAgg FMax false (EAttr b))] in
+  match tr_items DSqlite items, tr_items DSqlite items2, tr_where DSqlite (Some (ECmp CGt (EAttr a) (EInt 100))) with
+  | Some q, Some q2, Some c2 => sql_group_rows DSqlite q [] table = [[IntV 2; IntV 2; IntV 5]; [NullV; IntV 2; IntV 4]] /\
+                                sql_group_rows DSqlite q2 c2 table = [[IntV 0; NullV]]
+  | _, _, _ => False
+  end /\ py_group_rows items None table = [[AVal (PInt 2); AVal (PInt 2); AVal (PInt 5)]; [AVal PNone; AVal (PInt 2); AVal (PInt 4)]].
+Proof. vm_compute. repeat split; reflexivity. Qed.
+
+(* Ordering (Model/C01Order.v): select(proj for p in P [if c]).order_by(k1, desc(k2), ...), keys scalar expressions.  [sql_order_rows]:
+   the kept rows sorted by the stored key values (integers, strings by code point, false < true, NULL smallest on SQLite / MySQL and
+   largest on PostgreSQL, DESC reversing the whole order of its key), stable; [py_order_rows nf]: the comprehension sorted by the
+   Python key values with the None keys first (nf) or last.  The list the database returns on dialect d is the comprehension sorted
+   with None where d sorts NULL.  (Rows with equal key tuples: SQL leaves their order open, the model keeps the table order on both
+   sides; the tie always ends the key list with the primary key.) *)
+Theorem C01_order_rows_except_known : forall d, modelled d = true ->
+  forall table filt ks proj vt qks conds q,
+  filt_typed filt = true -> ty_of proj = Some (TV vt) ->
+  tr_where d filt = Some conds -> tr_order d ks = Some qks -> tr_project d proj = Some q ->
+  Forall (orow_ok d filt ks proj) table ->
+  sql_order_rows d qks conds q table = map (enc d) (py_order_rows (nulls_first d) ks filt proj table) /\
+  map (dec (TV vt)) (sql_order_rows d qks conds q table) = py_order_rows (nulls_first d) ks filt proj table.
+Proof. exact order_sound. Qed.
+Print Assumptions C01_order_rows_except_known.
+
+(* non-vacuity: order by (desc(p.a), p.id) with a None key: None last on SQLite (DESC), first on PostgreSQL *)
+Example C01_order_nonvacuous :
+  let a := mkattr 1 TInt true in let pk := mkattr 0 TInt false in
+  let row (id : Z) (av : pyv) := mkenv (fun i => match i with 0%nat => PInt id | 1%nat => av | _ => PNone end) (fun _ => PNone) in
+  let table := [row 1 (PInt 2); row 2 PNone; row 3 (PInt 5); row 4 (PInt 2)] in
+  let ks := [(EAttr a, true); (EAttr pk, false)] in
+  match tr_order DSqlite ks, tr_order DPostgres ks with
+  | Some k1, Some k2 => sql_order_rows DSqlite k1 [] (QCol 0) table = [IntV 3; IntV 1; IntV 4; IntV 2] /\
+                        sql_order_rows DPostgres k2 [] (QCol 0) table = [IntV 2; IntV 3; IntV 1; IntV 4]
+  | _, _ => False
+  end /\ py_order_rows true ks None (EAttr pk) table = [PInt 3; PInt 1; PInt 4; PInt 2].
 Proof. vm_compute. repeat split; reflexivity. Qed.
 
 (* non-vacuity: a nested filter with a None attribute, a negative parameter and a floor division satisfies every
